@@ -146,7 +146,8 @@ class C10(SigBase):
     rule = ("scenarios = 1-3 loop threads (+ optional plain raiser thread), 1-5 interests per thread over 1-2 signals with all four flag "
             "combinations, deliveries directed at every thread / process-directed / to a forked child, raised from tasks, timers, signal "
             "handlers (delivery during the handler) and other threads, register/unregister from tasks, timers and handlers, random baton "
-            "schedules; plus the cross-scope hand-off family (the scenarios that exposed D5, fixed).  non-trivial = the log has a delivery that posts (Fw between Sd and Sx) and one of: "
+            "schedules; plus the cross-scope hand-off family (the scenarios that exposed D5, fixed) and the tree-shape family (4-7 interests "
+            "for three signal numbers in one tree, random registration order, every signal delivered).  non-trivial = the log has a delivery that posts (Fw between Sd and Sx) and one of: "
             "deliveries in >= 2 threads, a delivery during a user handler (Sd between Cg and the thread's next wait), a hand-off post "
             "inside an unregister, a process-set fallback (L s inside Sd..Sx), a delivery in a forked child; distinct = distinct case text")
 
@@ -154,7 +155,7 @@ class C10(SigBase):
 
     def gen(self, rng, d5_bias=False):
         nthr = rng.choice([1, 2, 2, 2, 3])
-        sigs = rng.choice([[10], [10], [10, 12]])
+        sigs = rng.choice([[10], [10], [10, 12], [10, 12, 14], [10, 12, 14]])
         be = rng.choice(["et", "et", "et", "ep", "pp", "po"])
         secs = ["B" + be, "M%d" % rng.choice([100, 160])]
         if rng.random() < 0.15:
@@ -187,7 +188,7 @@ class C10(SigBase):
             return " ".join(action(k, **kw) for _ in range(rng.randint(1, nmax)))
 
         for k in range(nthr):
-            n = rng.randint(1, 4)
+            n = rng.randint(1, 4) if len(sigs) < 3 else rng.randint(3, 6)
             body = ["gr%d=%d%s" % (j, rsig(), rflags()) for j in range(n)]
             body.append("kr0")
             for tmr in range(rng.randint(0, 2)):
@@ -237,9 +238,46 @@ class C10(SigBase):
                     out.append(";".join(secs))
         return out
 
+    def tree_family(self, rng, n):
+        """one tree (process-wide or one thread's) holding 4-7 interests for three signal numbers, registered in random order
+        (the AVL shape and the position of the first interest of a signal vary), then every signal is delivered: the walk
+        must start at the FIRST interest of the signal in comparator order wherever it sits in the tree"""
+        out = []
+        for _ in range(n):
+            tt = rng.random() < 0.4
+            cnt = rng.randint(4, 7)
+            regs = []
+            for j in range(cnt):
+                fl = rng.choice(["", "", "x"]) + ("t" if tt else "")
+                regs.append("gr%d=%d%s" % (j, rng.choice([10, 12, 14]), fl))
+            rng.shuffle(regs)
+            two = (not tt) and rng.random() < 0.4
+            raises = []
+            for sg in rng.sample([10, 12, 14], 3):
+                raises += ["sg%d@0" % sg, "y"]
+            if rng.random() < 0.3:
+                k = rng.randrange(cnt)
+                raises = raises[:2] + ["gu%d" % k] + raises[2:]
+            secs = ["B" + rng.choice(["et", "et", "ep", "po"]), "M80"]
+            if two:
+                secs.append("Z" + self.sched(rng, 2, 40))
+                h = len(regs) // 2
+                secs.append("L0:%s kr0 tr7+900000000" % " ".join(regs[:h]))
+                secs.append("L1:%s tr7+900000000" % " ".join(r.replace("gr", "gr") for r in regs[h:]))
+                secs.append("H1t7:" + " ".join("gu%d" % j for j in range(8)))
+            else:
+                secs.append("L0:%s kr0 tr7+900000000" % " ".join(regs))
+            secs.append("H0k0:" + " ".join(raises))
+            secs.append("H0t7:" + " ".join("gu%d" % j for j in range(8)))
+            out.append(";".join(secs))
+        return out
+
     def fixed_cases(self):
         return [
             "Bet;M20;L0:gr0=10 gr1=10x gr2=10xt kr0;H0k0:sg10@0 y;H0g2:gu2;H0g1:gu1;H0g0:gu0",
+            # first interest of the signal deep in the tree: X(12 shared) root, L(10), D(14), R(12 exclusive, sorts before X)
+            "Bet;M40;L0:gr0=12 gr1=10 gr2=14 gr3=12x kr0 tr7+900000000;H0k0:sg12@0 y;H0t7:gu0 gu1 gu2 gu3",
+            "Bet;M40;L0:gr0=12t gr1=10t gr2=14t gr3=12xt kr0 tr7+900000000;H0k0:sg12@0 y sg10@0 y sg14@0 y;H0t7:gu0 gu1 gu2 gu3",
             "Bet;M20;L0:gr1=10xt gr2=10xt kr0;H0k0:sg10@0 y gu1 gu2;H0g1:gu1;H0g2:gu2",
             "Bet;M30;Z01010101010101;L0:gr0=10 gr1=12x kr0;L1:gr0=10t gr1=10 kr0;H0k0:sg10@1 sg10@0 y sc10;H1k0:sg12 y;"
             "H0g0:gu0;H0g1:gu1;H1g0:gu0;H1g1:gu1",
@@ -258,6 +296,9 @@ class C10(SigBase):
         d5 = self.d5_family(rng)
         self.d5_cases = set(d5)
         cases += d5
+        trees = self.tree_family(rng, 300 if ctx.tier == "quick" else 6000)
+        self.n_trees = len(trees)
+        cases += trees
         n = 1400 if ctx.tier == "quick" else 40000
         for _ in range(n):
             cases.append(self.gen(rng))
@@ -306,7 +347,7 @@ class C10(SigBase):
 
     def distribution(self, cases):
         toks = [t for c in cases for s in c.split(";") if ":" in s for t in s.split(":", 1)[1].replace("/", " ").split()]
-        return {"fixed": self.n_fixed, "cross_scope_handoff_family": len(self.d5_cases), "generated": self.n_gen,
+        return {"fixed": self.n_fixed, "cross_scope_handoff_family": len(self.d5_cases), "tree_shape_family": self.n_trees, "generated": self.n_gen,
                 "threads": {str(k): sum(1 for c in cases if len(re.findall(r"(?:^|;)[LP]\d:", c)) == k) for k in (1, 2, 3, 4)},
                 "registrations": sum(1 for t in toks if t.startswith("gr")),
                 "by_flags": {f or "shared": sum(1 for t in toks if re.fullmatch(r"gr\d=\d+%s" % f, t)) for f in self.FLAGS},
@@ -343,7 +384,9 @@ class C11(SigBase):
     rule = ("scenarios = 1-3 loop threads (+ optional plain thread), up to 6 children: strangers (never registered), children registered before / "
             "after their first status change, children spawned through the library that exit at once or later; status sequences stop / continue / "
             "exit n / killed by n in any order and from any thread, task, timer or wait handler, SIGCHLD received by any thread; unregistration "
-            "from the handler (own and other interests), from tasks and timers; the kill helper before and after the death; random baton schedules. "
+            "from the handler (own and other interests), from tasks and timers; the kill helper before and after the death; random baton schedules; "
+            "plus the spawn-race family (a second loop thread with an interest, the spawned child exits inside fork, the schedule hands the "
+            "baton to the other thread after 0..47 yield points of the spawner, so also right after the fork). "
             "non-trivial = at least one status delivered (Ci) and one of: a reap (W4) in a thread other than the interest's, a child without "
             "interest reaped, >= 2 statuses in one completion, an unregistration inside a wait handler, a spawn whose child changed state inside "
             "fork, a refused kill; distinct = distinct case text")
@@ -431,10 +474,38 @@ class C11(SigBase):
             "Bet;M30;L0:cn0 ir0=0 kr0 tr7+5000000;H0k0:cs0=k9 y ik0=15;H0t7:ik0=9 iu0",
         ]
 
+    @staticmethod
+    def spawn_race(k, st, spawner_first):
+        """another loop thread owns a wait interest (so it is a SIGCHLD reaper); the spawned child changes state inside fork;
+        the schedule runs the spawner for k yield points and then only the other thread: for the right k the other thread
+        handles the SIGCHLD while the spawner is between fork and the tree insertion"""
+        if spawner_first:
+            return ("Bet;M80;Z%s;L0:cn0 kr0 tr7+900000000;H0k0:is0=1.%s;H0i0:iu0;H0t7:iu0;L1:ir0=0 tr7+900000000;H1t7:iu0"
+                    % ("0" * k + "1" * 60, st))
+        return ("Bet;M80;Z%s;L0:cn0 ir0=0 tr7+900000000;H0t7:iu0;L1:kr0 tr7+900000000;H1k0:is0=1.%s;H1i0:iu0;H1t7:iu0"
+                % ("1" * k + "0" * 60, st))
+
+    def spawn_race_family(self):
+        out = []
+        for st in ("e0", "k9"):
+            for first in (False, True):
+                for k in range(0, 48):
+                    out.append(self.spawn_race(k, st, first))
+        return out
+
+    def widen(self, ctx, case):
+        out = SigBase.widen(self, ctx, case)
+        if re.search(r"is\d=\d", case):
+            out += self.spawn_race_family()
+        return out
+
     def cases(self, ctx):
         rng = vlib.rng_for(ctx.seed, "C11")
         cases = list(self.fixed_cases())
         self.n_fixed = len(cases)
+        race = self.spawn_race_family()
+        self.n_race = len(race)
+        cases += race
         n = 1400 if ctx.tier == "quick" else 40000
         for _ in range(n):
             cases.append(self.gen(rng))
@@ -483,7 +554,7 @@ class C11(SigBase):
 
     def distribution(self, cases):
         toks = [t for c in cases for s in c.split(";") if ":" in s for t in s.split(":", 1)[1].replace("/", " ").split()]
-        return {"fixed": self.n_fixed, "generated": self.n_gen,
+        return {"fixed": self.n_fixed, "spawn_race_family": self.n_race, "generated": self.n_gen,
                 "strangers_created": sum(1 for t in toks if t.startswith("cn")),
                 "register": sum(1 for t in toks if t.startswith("ir")), "register_spawn": sum(1 for t in toks if t.startswith("is")),
                 "spawn_child_changes_inside_fork": sum(1 for t in toks if t.startswith("is") and "." in t),
